@@ -110,6 +110,34 @@ def in_process(case):
                         "fallback updater gives %r" % (n, st.seed(), twin.seed()))
     else:
         upd = SimpleStreamUpdater()
+    # the result may not depend on what the updater instance served before
+    # (e.g. an earlier experiment with the same stream names and other seeds)
+    used = SimpleStreamUpdater() if case["updater"] == "simple" else StreamSeedUpdater(table)
+    for n in names:
+        other = MersenneTwister(case["seeds"][n] + 12345)
+        try:
+            used.update_seed(n, other, max(0, r - 1))
+            used.update_seed(n, other, r)
+        except (ValueError, TypeError):
+            pass
+    for n in names:
+        a = MersenneTwister(case["seeds"][n])
+        b = MersenneTwister(case["seeds"][n])
+        fresh = SimpleStreamUpdater() if case["updater"] == "simple" else StreamSeedUpdater(table)
+        try:
+            fresh.update_seed(n, b, r)
+        except (ValueError, TypeError):
+            continue
+        try:
+            used.update_seed(n, a, r)
+        except Exception as e:
+            return ("seed-depends-on-updater-history", "an updater that served another "
+                    "experiment before raised %s for stream %r" % (type(e).__name__, n))
+        if a.seed() != b.seed():
+            return ("seed-depends-on-updater-history", "stream %r (original seed %d), "
+                    "replication %d: an updater that had served another stream of that name "
+                    "before gives seed %r, a fresh updater gives %r"
+                    % (n, case["seeds"][n], r, a.seed(), b.seed()))
     # refused updates change nothing
     for bad in (-1, -5, 1.0, "1", None):
         for n in names:
